@@ -52,6 +52,22 @@ fn check(s: &Shape, case: &str, rep: &mut Report) {
     if buf.len() != want {
         rep.violation(&format!("{}/emit", tname), case, detail("emitted != whitepaper size", buf.len(), want));
     }
+    // the same serialisation into destinations that accept only a few bytes per write call (a
+    // pipe, a socket): the bytes that arrive are the same, whatever the chunk size
+    for k in [1usize, 7, 8, 13, 4096] {
+        if k == 4096 && buf.len() <= 4096 {
+            continue;
+        }
+        let dest = crate::iomon::Dest::with_chunking(crate::iomon::Chunking::Fixed(k));
+        let mut dd = dest.clone();
+        let res = with_concrete!(s, x => x.write_to(&mut dd));
+        rep.count("serialisations_into_a_short_writing_destination", 1);
+        let got = dest.data();
+        if res.is_err() || got != buf {
+            rep.violation(&format!("{}/emit-short-writes", tname), case, detail("bytes arrived at a destination accepting k bytes per call != bytes emitted into a Vec (left: arrived, right: emitted)", got.len(), buf.len()));
+            break;
+        }
+    }
     // the record header the writer stores
     match crate::shapes::write_all_mem(std::slice::from_ref(s), false) {
         Ok((shp, _)) => {
